@@ -1,7 +1,8 @@
 (** C13 — hostile images cannot hang or crash the library.  Every function of the model is a total Gallina function
     (accepted by Coq's guard checker: no fuel-less loops) over a result type whose error kinds contain no Python-
     internal exception.  Proved on top of that: whatever the FAT contains (cycles, cross-links, out-of-range links),
-    the chain follower yields at most [fuel] = len(FAT) clusters, each of them an index of the FAT; a chain reported
+    the chain follower yields at most [fuel] = len(FAT) clusters, each of them a data-cluster index of the FAT (never 0 or 1,
+    whose addresses would lie below the data area); a chain reported
     complete is a genuine chain.  Work of a listing is therefore bounded by len(FAT) x slots per cluster. *)
 From Coq Require Import ZArith List Bool.
 From PyFatV Require Import Base.Bytes Base.PyEnv Gen.Pure Model.Codec Model.Dir Model.FS Proofs.FatTable Proofs.Device Proofs.DirCodec Proofs.DirState.
@@ -11,7 +12,7 @@ Open Scope Z_scope.
 Theorem C13_chain_bounded : forall fuel t fat i, (length (fst (chain_go fuel t fat i)) <= fuel)%nat.
 Proof. exact chain_go_length. Qed.
 Print Assumptions C13_chain_bounded.
-Theorem C13_chain_in_fat : forall fuel t fat i c, In c (fst (chain_go fuel t fat i)) -> 0 <= c < lenZ fat.
+Theorem C13_chain_in_fat : forall fuel t fat i c, In c (fst (chain_go fuel t fat i)) -> 0 <= c < lenZ fat /\ Gen.MIN_DATA_CLUSTER t <= c.
 Proof. exact chain_go_in_fat. Qed.
 Print Assumptions C13_chain_in_fat.
 (** a self-loop is reported as an error (no end-of-chain reached), not followed forever *)
